@@ -62,12 +62,19 @@ def _job(args):
                 if len(tgt) > k:
                     files[f]["body"].append(("import", [scan.dotted(tgt[k:])]))
         base = scan.materialise(dirs, files)
+        # now and then with exclusion patterns that differ from names of the tree only in case: they exclude nothing
+        xk = {}
+        if rng.random() < 0.3:
+            xp = scan.harmless_case_exclusions(rng, dirs, files)
+            if xp:
+                xk = {"exclusions": xp}
+                out["stats"]["with_case_differing_exclusions"] = out["stats"].get("with_case_differing_exclusions", 0) + 1
         try:
-            whole = scan.real_scan(base, root, (root,))
+            whole = scan.real_scan(base, root, (root,), **xk)
             cases, metas = [], []
             enc = rules.Enc()
             for mp in dirs:
-                r = scan.real_scan(base, root, mp)
+                r = scan.real_scan(base, root, mp, **xk)
                 out["n"] += 1
                 case = dict(dirs=[list(d) for d in dirs], files={scan.dotted(f): (scan.render_v(v) if v["py"] else None) for f, v in files.items()}, module_path=list(mp))
                 if r[0] != "OK":
